@@ -18,6 +18,9 @@ package verifharness
 //   toggle <denom>                               -> ok | err  (real ToggleRelay)
 //   kill <denom>                                 -> ok | err  (remove the pair's contract account: "self-destructed")
 //   cb <ack|timeout> <pkt> <ack bytes> <inner err 0|1> <k> (<addr> <denom> <delta>)*k  -> err=<0|1>   (packet SENT by this chain)
+//   restart                                      -> ok        (aggregate ExportGenesis -> JSON -> Validate -> wipe store -> InitGenesis)
+//   dry <pkt>                                    -> ok        (the packet through middleware and core handler on DROPPED contexts)
+//   recv <pkt> rejected                          -> rejected  (MsgRecvPacket.ValidateBasic refuses it: never reaches the handler)
 //   recv <seq,sp,sc,dp,dc,data> <dec> <amt|none> <rcv|none> <data.Denom> <n> (<raw trace> <its ibc-go name>)*n <inner ack> <k> (<addr> <denom> <delta>)*k
 //        packet; then what the external decoders say (computed here with the node's own libraries); then what the
 //        wrapped transfer module did on the copy (its acknowledgement and its bank effect)
@@ -46,6 +49,7 @@ import (
 	connectiontypes "github.com/cosmos/ibc-go/v3/modules/core/03-connection/types"
 	commitmenttypes "github.com/cosmos/ibc-go/v3/modules/core/23-commitment/types"
 	host "github.com/cosmos/ibc-go/v3/modules/core/24-host"
+	ibctmtypes "github.com/cosmos/ibc-go/v3/modules/light-clients/07-tendermint/types"
 	localhosttypes "github.com/cosmos/ibc-go/v3/modules/light-clients/09-localhost/types"
 	channeltypes "github.com/cosmos/ibc-go/v3/modules/core/04-channel/types"
 	porttypes "github.com/cosmos/ibc-go/v3/modules/core/05-port/types"
@@ -56,6 +60,7 @@ import (
 	"github.com/tharsis/ethermint/x/evm/statedb"
 
 	"github.com/teleport-network/teleport/app"
+	"github.com/teleport-network/teleport/x/aggregate"
 	erc20contracts "github.com/teleport-network/teleport/syscontracts/erc20"
 	aggregatetypes "github.com/teleport-network/teleport/x/aggregate/types"
 )
@@ -244,11 +249,137 @@ func c16Voucher(raw string) string { return transfertypes.ParseDenomTrace(raw).I
 
 // deliver runs the real ibc-go core handler for MsgRecvPacket on ctx; returns the acknowledgement hash stored for the
 // packet (nil = none written).
+// two relayers take turns (by packet sequence, so that a replay picks the same one)
+func (w *c16World) relayerOf(pkt channeltypes.Packet) sdk.AccAddress {
+	if pkt.Sequence%2 == 1 {
+		return sdk.AccAddress(bytes.Repeat([]byte{0x5f}, 20))
+	}
+	return w.relayer
+}
+
+// deliverCb runs the real ibc-go core handler for MsgAcknowledgement / MsgTimeout of a packet SENT by this chain (fixtures:
+// our packet commitment; the counterparty's acknowledgement / missing receipt in the localhost client store; a consensus
+// state after the timeout). Returns the handler's error.
+func (w *c16World) deliverCb(ctx sdk.Context, kind string, pkt channeltypes.Packet, ack []byte) (err error, panicked bool, pmsg string) {
+	ik := w.app.IBCKeeper
+	ik.ChannelKeeper.SetPacketCommitment(ctx, pkt.SourcePort, pkt.SourceChannel, pkt.Sequence, channeltypes.CommitPacket(w.app.AppCodec(), pkt))
+	ph := clienttypes.NewHeight(1, 5000)
+	if kind == "ack" {
+		if verr := channeltypes.NewMsgAcknowledgement(pkt, ack, []byte{1}, ph, w.relayerOf(pkt).String()).ValidateBasic(); verr != nil {
+			return verr, false, "validate-basic"
+		}
+		ik.ClientKeeper.ClientStore(ctx, c16Client).Set(host.PacketAcknowledgementKey(pkt.DestinationPort, pkt.DestinationChannel, pkt.Sequence),
+			ack) // the v3 localhost client compares the raw acknowledgement bytes
+		msg := channeltypes.NewMsgAcknowledgement(pkt, ack, []byte{1}, ph, w.relayerOf(pkt).String())
+		if verr := msg.ValidateBasic(); verr != nil {
+			return verr, false, "validate-basic"
+		}
+		panicked, pmsg = safely(func() { _, err = ik.Acknowledgement(sdk.WrapSDKContext(ctx), msg) })
+		return
+	}
+	ik.ClientKeeper.SetClientConsensusState(ctx, c16Client, ph, &ibctmtypes.ConsensusState{Timestamp: ctx.BlockTime().Add(time.Hour),
+		Root: commitmenttypes.NewMerkleRoot([]byte("root")), NextValidatorsHash: bytes.Repeat([]byte{1}, 32)})
+	msg := channeltypes.NewMsgTimeout(pkt, 1, []byte{1}, ph, w.relayerOf(pkt).String())
+	if verr := msg.ValidateBasic(); verr != nil {
+		return verr, false, "validate-basic"
+	}
+	panicked, pmsg = safely(func() { _, err = ik.Timeout(sdk.WrapSDKContext(ctx), msg) })
+	return
+}
+
+// aggregate module store, byte for byte (+ params)
+func (w *c16World) aggDump(ctx sdk.Context) string {
+	var sb strings.Builder
+	it := ctx.KVStore(w.app.GetKey(aggregatetypes.StoreKey)).Iterator(nil, nil)
+	defer it.Close()
+	for ; it.Valid(); it.Next() {
+		sb.WriteString(hx(it.Key()) + "=" + hx(it.Value()) + ";")
+	}
+	return sb.String() + fmt.Sprintf("|%v", w.app.AggregateKeeper.GetParams(ctx))
+}
+
+// restart: ExportGenesis -> JSON through the app codec -> GenesisState.Validate -> wipe the module store -> InitGenesis
+func (w *c16World) restart(r *Rec) string {
+	before := w.aggDump(w.ctx)
+	var gs2 aggregatetypes.GenesisState
+	var verr error
+	pan, pmsg := safely(func() {
+		gs := aggregate.ExportGenesis(w.ctx, *w.app.AggregateKeeper)
+		bz := w.app.AppCodec().MustMarshalJSON(gs)
+		w.app.AppCodec().MustUnmarshalJSON(bz, &gs2)
+		verr = gs2.Validate()
+	})
+	if pan || verr != nil {
+		w.fail(r, "C16:restart-export-invalid", "the aggregate module's own export does not pass its genesis validation", fmt.Sprint(pmsg, verr), "valid genesis")
+		return "ok"
+	}
+	cc, write := w.ctx.CacheContext()
+	st := cc.KVStore(w.app.GetKey(aggregatetypes.StoreKey))
+	var keys [][]byte
+	it := st.Iterator(nil, nil)
+	for ; it.Valid(); it.Next() {
+		keys = append(keys, append([]byte{}, it.Key()...))
+	}
+	it.Close()
+	for _, k := range keys {
+		st.Delete(k)
+	}
+	if pan, pmsg := safely(func() { aggregate.InitGenesis(cc, *w.app.AggregateKeeper, w.app.AccountKeeper, gs2) }); pan {
+		w.fail(r, "C16:restart-import-panic", "InitGenesis panics on the module's own export: "+pmsg, "panic", "import")
+		return "ok"
+	}
+	write()
+	if after := w.aggDump(w.ctx); after != before {
+		w.fail(r, "C16:restart-changed-state", "export/import of the aggregate module changed its state (pairs, denomination / contract index, enabled flags, params)",
+			after, before)
+	}
+	r.Count("restart")
+	if len(gs2.TokenPairs) > 0 {
+		r.Count("restart.with-pairs")
+	}
+	for _, tp := range gs2.TokenPairs {
+		if !tp.Enabled {
+			r.Count("restart.with-disabled-pair")
+			break
+		}
+	}
+	return "ok"
+}
+
+// dry: the packet through the middleware and through the core handler on contexts that are DROPPED (simulation, CheckTx,
+// a failed multi-message tx); nothing may change, later verdicts must be unaffected.
+func (w *c16World) dry(r *Rec, p c16Pkt) string {
+	pkt := p.packet()
+	before := w.aggDump(w.ctx) + strings.Join(c16Diff(map[string]*big.Int{}, c16Balances(w, w.ctx)), ";")
+	// twice on two dropped copies of the same state: both runs must be indistinguishable (nothing remembered outside the context)
+	var outs [2]string
+	for i := range outs {
+		c1, _ := w.ctx.CacheContext()
+		c1 = c1.WithEventManager(sdk.NewEventManager())
+		var a ibcexported.Acknowledgement
+		pan, _ := safely(func() { a = w.mw.OnRecvPacket(c1, pkt, w.relayerOf(pkt)) })
+		outs[i] = fmt.Sprintf("%v|%s|%s|%d", pan, c16AckStr(a), strings.Join(c16Diff(map[string]*big.Int{}, c16Balances(w, c1)), ";"), len(c1.EventManager().Events())) + w.aggDump(c1)
+	}
+	if outs[0] != outs[1] {
+		w.fail(r, "C16:dropped-context-leaked", "the same packet on two dropped copies of the same state gives different results: something outside the context remembers the first run",
+			"second run differs", "identical runs")
+	}
+	c2, _ := w.ctx.CacheContext()
+	if channeltypes.NewMsgRecvPacket(pkt, []byte{1}, clienttypes.NewHeight(1, 1), w.relayer.String()).ValidateBasic() == nil {
+		w.deliver(c2, pkt)
+	}
+	if after := w.aggDump(w.ctx) + strings.Join(c16Diff(map[string]*big.Int{}, c16Balances(w, w.ctx)), ";"); after != before {
+		w.fail(r, "C16:dropped-context-leaked", "running the packet on a dropped context changed the state", "changed", "unchanged")
+	}
+	r.Count("dry")
+	return "ok"
+}
+
 func (w *c16World) deliver(ctx sdk.Context, pkt channeltypes.Packet) (stored []byte, err error, panicked bool, pmsg string) {
 	ik := w.app.IBCKeeper
 	ik.ClientKeeper.ClientStore(ctx, c16Client).Set(host.PacketCommitmentKey(pkt.SourcePort, pkt.SourceChannel, pkt.Sequence),
 		channeltypes.CommitPacket(w.app.AppCodec(), pkt))
-	msg := channeltypes.NewMsgRecvPacket(pkt, []byte{1}, clienttypes.NewHeight(1, 1), w.relayer.String())
+	msg := channeltypes.NewMsgRecvPacket(pkt, []byte{1}, clienttypes.NewHeight(1, 1), w.relayerOf(pkt).String())
 	panicked, pmsg = safely(func() { _, err = ik.RecvPacket(sdk.WrapSDKContext(ctx), msg) })
 	if panicked || err != nil {
 		return nil, err, panicked, pmsg
@@ -447,6 +578,14 @@ func (w *c16World) fail(r *Rec, sig, what, obs, req string) {
 // recv executes one packet; returns the full op line (with the decoder / inner-module facts) and the observation.
 func (w *c16World) recv(r *Rec, p c16Pkt) (string, string) {
 	pkt := p.packet()
+	// -- the stateless stage a transaction passes first: MsgRecvPacket.ValidateBasic (packet identifiers, sequence != 0,
+	// some timeout, NON-EMPTY data); a packet it rejects never reaches the handler
+	if err := channeltypes.NewMsgRecvPacket(pkt, []byte{1}, clienttypes.NewHeight(1, 1), w.relayer.String()).ValidateBasic(); err != nil {
+		line := "recv " + p.String() + " rejected"
+		w.hist = append(w.hist, line)
+		r.Count("recv.rejected-by-validate-basic")
+		return line, "rejected"
+	}
 	// -- what the external decoders say (same libraries as the node) -------------------------------
 	var data transfertypes.FungibleTokenPacketData
 	dec := transfertypes.ModuleCdc.UnmarshalJSON(pkt.GetData(), &data) == nil
@@ -485,7 +624,7 @@ func (w *c16World) recv(r *Rec, p c16Pkt) (string, string) {
 	ctxI, _ := w.ctx.CacheContext()
 	ctxI = ctxI.WithEventManager(sdk.NewEventManager())
 	var innerAck ibcexported.Acknowledgement
-	if pan, _ := safely(func() { innerAck = w.inner.OnRecvPacket(ctxI, pkt, w.relayer) }); pan || innerAck == nil {
+	if pan, _ := safely(func() { innerAck = w.inner.OnRecvPacket(ctxI, pkt, w.relayerOf(pkt)) }); pan || innerAck == nil {
 		r.Count("recv.inner-panic-or-nil")
 		return "", ""
 	}
@@ -522,10 +661,20 @@ func (w *c16World) recv(r *Rec, p c16Pkt) (string, string) {
 			}
 		}
 	}
+	// distribution only: the pair of the received voucher aggregates several denominations; the receiver holds
+	// (unconverted) vouchers of ANOTHER denomination of the same pair in sufficient amount
+	multiDenom, otherHeld := hadPair && len(pairBefore.Denoms) > 1, false
+	if multiDenom && rcv != nil && amt != nil && amt.Sign() > 0 {
+		for _, od := range pairBefore.Denoms {
+			if have := b0[hx(rcv)+" "+hxs(od)]; od != hookDenom && have != nil && have.Cmp(amt) >= 0 {
+				otherHeld = true
+			}
+		}
+	}
 	ctxM, _ := w.ctx.CacheContext()
 	ctxM = ctxM.WithEventManager(sdk.NewEventManager())
 	var mwAck ibcexported.Acknowledgement
-	pan, pmsg := safely(func() { mwAck = w.mw.OnRecvPacket(ctxM, pkt, w.relayer) })
+	pan, pmsg := safely(func() { mwAck = w.mw.OnRecvPacket(ctxM, pkt, w.relayerOf(pkt)) })
 	kind := "-"
 	if hadPair {
 		kind = w.kinds[pairBefore.ERC20Address]
@@ -765,6 +914,24 @@ func (w *c16World) recv(r *Rec, p c16Pkt) (string, string) {
 	if innerOK && p.sp != p.dp {
 		r.Count("recv.port-asymmetric")
 	}
+	if innerOK && multiDenom {
+		r.Count("recv.multidenom-pair")
+		if hookDenom != pairBefore.Denoms[0] {
+			r.Count("recv.multidenom-pair.not-first-denom")
+		}
+		if converted {
+			r.Count("recv.multidenom-pair.converted")
+		}
+		if otherHeld {
+			r.Count("recv.multidenom-pair.other-held")
+			if converted && hookDenom != pairBefore.Denoms[0] {
+				r.Count("recv.multidenom-pair.other-held.not-first.converted")
+			}
+		}
+	}
+	if rcv != nil && w.app.BankKeeper.BlockedAddr(rcv) {
+		r.Count("recv.receiver-blocked")
+	}
 	if innerOK && lookalike {
 		r.Count("recv.lookalike")
 		if lookalikeFunded {
@@ -968,9 +1135,9 @@ func (w *c16World) cb(r *Rec, kind string, p c16Pkt, ack []byte) (string, string
 	call := func(m porttypes.IBCModule, ctx sdk.Context) (err error, pan bool) {
 		pan, _ = safely(func() {
 			if kind == "ack" {
-				err = m.OnAcknowledgementPacket(ctx, pkt, ack, w.relayer)
+				err = m.OnAcknowledgementPacket(ctx, pkt, ack, w.relayerOf(pkt))
 			} else {
-				err = m.OnTimeoutPacket(ctx, pkt, w.relayer)
+				err = m.OnTimeoutPacket(ctx, pkt, w.relayerOf(pkt))
 			}
 		})
 		return
@@ -1009,14 +1176,52 @@ func (w *c16World) cb(r *Rec, kind string, p c16Pkt, ack []byte) (string, string
 			strings.Join(d, "; "), "no difference")
 	}
 	r.Count("cb." + kind)
+	// ---- the same through the real ibc-go core handler (MsgAcknowledgement / MsgTimeout, router as wired in app.go) ----
+	ctxE, writeE := w.ctx.CacheContext()
+	errE, panE, msgE := w.deliverCb(ctxE, kind, pkt, ack)
+	switch {
+	case msgE == "validate-basic":
+		r.Count("cb.core.rejected-by-validate-basic") // e.g. an empty acknowledgement: never reaches the handler
+	case panE:
+		w.fail(r, "C16:callback-panic", "MsgAcknowledgement / MsgTimeout through ibc-go core panics: "+msgE, "panic", "the wrapped module's result")
+	default:
+		r.Count("cb.core")
+		if (errE == nil) != (errI == nil) {
+			w.fail(r, "C16:callback-not-passthrough:core", "Msg"+kind+" through ibc-go core does not end like the bare transfer module's callback",
+				fmt.Sprint(errE), fmt.Sprint(errI))
+		} else if errE == nil {
+			if d := c16Diff(bI, c16Balances(w, ctxE)); len(d) != 0 {
+				w.fail(r, "C16:callback-not-passthrough:core", "Msg"+kind+" through ibc-go core leaves other balances than the bare transfer module's callback",
+					strings.Join(d, "; "), "no difference")
+			}
+			if c := w.app.IBCKeeper.ChannelKeeper.GetPacketCommitment(ctxE, pkt.SourcePort, pkt.SourceChannel, pkt.Sequence); len(c) != 0 {
+				w.fail(r, "C16:callback-not-passthrough:core", "packet commitment not cleared after Msg"+kind, hx(c), "deleted")
+			}
+			r.Count("cb.core.ok")
+			if len(deltas) > 0 {
+				r.Count("cb.core.refund")
+			}
+		}
+	}
 	if errM != nil {
 		r.Count("cb.err")
 		return line, "err=1"
 	}
 	if len(deltas) > 0 {
 		r.Count("cb.refund")
+		for _, e := range deltas {
+			if f := strings.Fields(e); !strings.HasPrefix(f[2], "-") && strings.HasPrefix(string(unhx(f[1])), "ibc/") {
+				r.Count("cb.refund.voucher")
+			} else if !strings.HasPrefix(f[2], "-") {
+				r.Count("cb.refund.native")
+			}
+		}
 	}
-	write()
+	if msgE != "validate-basic" && !panE && errE == nil {
+		writeE() // the state the real handler produced
+	} else {
+		write()
+	}
 	return line, "err=0"
 }
 
@@ -1028,6 +1233,16 @@ func (w *c16World) run(r *Rec, h []string) {
 			if line != "" {
 				r.Op(line, out)
 			}
+			continue
+		}
+		if op == "restart" {
+			w.hist = append(w.hist, op)
+			r.Op(op, w.restart(r))
+			continue
+		}
+		if strings.HasPrefix(op, "dry ") {
+			w.hist = append(w.hist, op)
+			r.Op(op, w.dry(r, c16ParsePkt(strings.Fields(op)[1])))
 			continue
 		}
 		if strings.HasPrefix(op, "recv ") {
@@ -1065,7 +1280,7 @@ func TestC16(t *testing.T) {
 	for _, h := range corpusOps("C16") {
 		w.run(r, append([]string{"reset"}, h...))
 	}
-	hist := 250
+	hist := 320
 	if r.Tier == "thorough" {
 		hist = 1500
 	}
@@ -1089,6 +1304,9 @@ func TestC16(t *testing.T) {
 	oddRecv := []string{addr(0x00, 20).String(), addr(0x44, 32).String(), addr(0x55, 5).String(), w.modAddr.String(),
 		authtypes.NewModuleAddress(transfertypes.ModuleName).String(), transfertypes.GetEscrowAddress("transfer", "channel-0").String(),
 		"", " ", "xyz", otherHrp, string(broken), "0x1111111111111111111111111111111111111111", strings.ToUpper(addr(0x22, 20).String())}
+	for _, m := range []string{"fee_collector", "distribution", "bonded_tokens_pool", "not_bonded_tokens_pool", "gov", "evm", "packet", "interchainaccounts", "rvesting"} {
+		oddRecv = append(oddRecv, authtypes.NewModuleAddress(m).String()) // blocked (distribution: allowed) module accounts
+	}
 	max256 := new(big.Int).Sub(new(big.Int).Lsh(big.NewInt(1), 256), big.NewInt(1))
 	goodAmt := []string{"1", "7", "1000000", "123456789012345678901234567890"}
 	var boundaryAmt []string
@@ -1222,6 +1440,36 @@ func TestC16(t *testing.T) {
 			}
 			focusRaw = &regd{dc, full, ""}
 		}
+		// multi-denomination pair: the same remote coin arrives over two / three channels; RegisterCoin for the first voucher,
+		// AddCoin for the others (one pair, one contract); receivers hold unconverted vouchers of the first / another
+		// denomination (e.g. received while the pair was disabled). A packet of the SECOND denomination must convert the
+		// received vouchers, not the holdings of the pair's first denomination.
+		if rng.Intn(4) == 0 {
+			base := pick(bases)
+			kind := pick([]string{"std", "std", "tinyd", "tiny1"})
+			regAs("channel-0", base, kind, "m")
+			first := hook("channel-0", base)
+			if regDenoms[first] {
+				others := []string{"channel-1"}
+				if rng.Intn(2) == 0 {
+					others = append(others, pick([]string{"channel-3", "channel-2"}))
+				}
+				for _, oc := range others {
+					nd := hook(oc, base)
+					if !regDenoms[nd] {
+						regDenoms[nd] = true
+						h = append(h, fmt.Sprintf("fund %s %s 1", hx(w.modAddr), hxs(nd)), fmt.Sprintf("addcoin %s %s", hxs(nd), hxs(first)))
+						registered = append(registered, regd{oc, base, nd}, regd{oc, base, nd})
+					}
+				}
+				for _, a := range goodRecv {
+					if rng.Intn(4) > 0 {
+						ra, _ := sdk.AccAddressFromBech32(a)
+						h = append(h, fmt.Sprintf("fund %s %s 200000000000000000000000000000000", hx(ra), hxs(pick([]string{first, first, hook("channel-1", base)}))))
+					}
+				}
+			}
+		}
 		if rng.Intn(3) == 0 { // a pair for the voucher of ONE asymmetric channel only
 			reg(pick([]string{"channel-1", "channel-1", "channel-2", "channel-3"}), pick(bases))
 		}
@@ -1245,6 +1493,8 @@ func TestC16(t *testing.T) {
 			case x == 0 || (moduleOff && x < 8):
 				moduleOff = !moduleOff
 				h = append(h, fmt.Sprintf("module %d", map[bool]int{true: 0, false: 1}[moduleOff]))
+			case x == 9 || x == 10:
+				h = append(h, "restart")
 			case x == 1 && len(registered) > 0:
 				h = append(h, "toggle "+hxs(registered[rng.Intn(len(registered))].denom))
 			case x == 2 && len(registered) > 0:
@@ -1253,12 +1503,15 @@ func TestC16(t *testing.T) {
 				reg(pick(dstChans), pick(bases))
 			case x == 5 && len(registered) > 0:
 				h = append(h, fmt.Sprintf("sendenabled %s %d", hxs(registered[rng.Intn(len(registered))].denom), rng.Intn(2)))
-			case x == 7 || x == 8:
+			case x == 7 || x == 8 || x == 11:
 				// a packet SENT by this chain comes back acknowledged / timed out
 				dc := pick(dstChans)
 				p := c16Pkt{seq: 1000 + seq, sp: "transfer", sc: dc, dp: c16CounterpartyPort(dc), dc: cp(dc)}
 				seq++
-				denom := pick([]string{"atele", "transfer/" + dc + "/uatom", "transfer/" + dc + "/uosmo", "uatom", ""})
+				denom := pick([]string{"atele", "atele", "transfer/" + dc + "/uatom", "transfer/" + dc + "/uosmo", "uatom", ""})
+				if denom == "atele" && rng.Intn(3) > 0 { // the native coins of the packet sit in the channel's escrow account
+					h = append(h, fmt.Sprintf("fund %s %s 2000000", hx(transfertypes.GetEscrowAddress("transfer", dc)), hxs("atele")))
+				}
 				sender := pick(goodRecv)
 				if rng.Intn(8) == 0 {
 					sender = pick(oddRecv)
@@ -1359,7 +1612,29 @@ func TestC16(t *testing.T) {
 					sender = pick([]string{"", " "})
 				}
 				p.data = c16Data(denom, amount, sender, receiver)
-				if rng.Intn(16) == 0 { // malformed packet data
+				if rng.Intn(12) == 0 { // odd but possibly valid shapes of the JSON packet data
+					switch rng.Intn(9) {
+					case 0: // a field ICS-20 v1 does not know (later versions: memo)
+						p.data = []byte(strings.Replace(string(p.data), "{", `{"memo":"hello",`, 1))
+					case 1: // pretty printed / other key order: still the same packet
+						p.data = []byte(fmt.Sprintf("{\n  \"sender\": %q,\n  \"receiver\": %q,\n  \"denom\": %q,\n  \"amount\": %q\n}", sender, receiver, denom, amount))
+					case 2: // huge strings
+						p.data = c16Data(denom, amount, strings.Repeat("S", 100000), receiver)
+					case 3:
+						p.data = c16Data(strings.Repeat("d", 10000), amount, sender, receiver)
+					case 4:
+						p.data = c16Data(denom, amount, sender, strings.Repeat("r", 10000))
+					case 5: // duplicate key
+						p.data = []byte(strings.Replace(string(p.data), "{", `{"amount":"1",`, 1))
+					case 6: // null / wrong types
+						p.data = []byte(strings.Replace(string(p.data), `"receiver":"`+receiver+`"`, `"receiver":null`, 1))
+					case 7:
+						p.data = []byte(strings.Replace(string(p.data), `"amount":"`+amount+`"`, `"amount":`+pick([]string{"7", "7.0", "1e3", "true"}), 1))
+					default: // escaped characters spelling the same strings
+						p.data = []byte(strings.Replace(string(p.data), `"denom":"`, `"denom":"\u0075`, 1))
+					}
+					r.Count("gen.odd-json")
+				} else if rng.Intn(16) == 0 { // malformed packet data
 					switch rng.Intn(7) {
 					case 0:
 						p.data = nil
@@ -1376,6 +1651,9 @@ func TestC16(t *testing.T) {
 					default:
 						p.data = []byte{0xff, 0x00, 0x7b}
 					}
+				}
+				if rng.Intn(8) == 0 { // first on contexts that are dropped, then for real
+					h = append(h, "dry "+p.String())
 				}
 				h = append(h, "recv "+p.String())
 			}
